@@ -20,3 +20,6 @@ open UtilModel UtilModel.Conc
 #print axioms Conc.watch_parked_open
 #print axioms Conc.watch_stale_queued
 #print axioms Conc.quiescent_waiters
+#print axioms Conc.C18_obs
+#print axioms Conc.C18_obs_core
+#print axioms UtilModel.monitor_of_simulation
